@@ -33,16 +33,14 @@ def _hs():
                  ("dead_then_live1", "thorough"), ("live1_then_dead", "thorough"), ("live2_then_dead", "thorough")):
         hs.append(H("c01::c01_k2_fold_" + n, tier=t, desc="K2: real rebuild_callsite_interest over registrar list '%s', stale cache symbolic" % n,
                     sym="each live collector's register_callsite answer in 3, stale cached interest"))
-    for n in ("rebuild1_live", "rebuild1_dead", "rebuild_dead_live", "empty_registry"):
+    for n in ("rebuild1_live", "empty_registry"):
         hs.append(H("c01::c01_k2_" + n, tier="thorough", desc="K2: real rebuild_interest (prune dead, fold hints into max, recompute registered callsite): " + n,
                     sym="interest answer, hint in {None,6 levels}, stale cache, stale max"))
     hs.append(H("c01::c01_k2_rebuild_hints2", tier="quick", desc="K2: hint/pruning half of the real rebuild_interest with no callsite registered: 2 live registrars, symbolic hints, stale max",
                 sym="two hints in {None, 6 levels}, stale global max"))
     hs.append(H("c01::c01_k2_rebuild_hints_dead_live", tier="thorough", desc="K2: hint/pruning half with a dropped collector's registrar before or after a live one", sym="hint, order, stale max"))
-    for a in "012":
-        for b in "012":
-            hs.append(H("c01::c01_k2_rebuild2_%s%s" % (a, b), tier="thorough",
-                        desc="K2: rebuild_interest with two live registrars answering (%s,%s), hints symbolic" % (a, b), sym="two hints in {None, 6 levels}"))
+    # unlisted (kept in c01.rs): c01_k2_rebuild1_dead, c01_k2_rebuild_dead_live, c01_k2_rebuild2_{00..22} — the end-to-end
+    # rebuild with a registered callsite and >= 2 registrars (or a dropped one) exceeds 24 GB in CBMC: undecided
     hs.append(H("c01::c01_reach", kind="reach", desc="vacuity twin"))
     return hs
 
